@@ -958,6 +958,8 @@ def check_duplicates(tier, seed):
         [(["H", "e-"], ["H+", "e-", "e-"], RT.GAS_TWOBODY), (["E", "H"], ["H+", "E", "e-"], RT.GAS_TWOBODY)],
         [(["C", "H"], ["CH"], RT.GAS_TWOBODY), (["C", "H"], ["CH"], RT.UNKNOWN), (["H", "C"], ["CH"], RT.GAS_PHOTON)],
         [(["C", "H"], ["CH"], RT.UNKNOWN), (["C", "H"], ["CH"], RT.GAS_TWOBODY), (["H", "C"], ["CH"], RT.GAS_PHOTON)],
+        # species whose names differ only in letter case are different species (para-H2 / PH2, ortho-H2 / OH2) in every mode
+        [(["pH2", "H+"], ["oH2", "H+"], RT.GAS_TWOBODY), (["PH2", "H+"], ["OH2", "H+"], RT.GAS_TWOBODY), (["H+", "pH2"], ["H+", "oH2"], RT.GAS_TWOBODY)],
     ]
     nd = len(directed)
     for h in range(nd + (60 if tier == "quick" else 600)):
